@@ -115,18 +115,31 @@ Definition parse_decimal (neg : bool) (mant : Z) (exp : Z) : Q :=
 
 (* ------------------------------------------------------------------------------------------------------------ *)
 (* specification: r = p/q is strictly inside (x-e, x+e) and no fraction with a smaller denominator is *)
-(* the same search on the reduced end points lo = ln/ld, hi = hn/hd in integer arithmetic (about 4x faster under
-   vm_compute than `brute`, which recomputes x - e and x + e in every round): the smallest numerator above lo*q is
-   floor(ln*q / ld) + 1; it is inside iff p/q < hn/hd.  Used only to establish "no denominator <= 400 works". *)
-Fixpoint none_below (ln ld hn hd q : Z) (fuel : nat) : bool :=
+(* Denominators above 400 (round 6): brute force is too slow inside the check, so minimality is DECIDED by the classical
+   Farey-neighbour criterion instead of being searched for.  If p*b - a*q = 1 with 0 < b < q, then a/b and
+   c/d = (p-a)/(q-b) are the neighbours of p/q among all fractions with a denominator below q (b*c - a*d = 1, so every
+   fraction strictly between them has a denominator >= b + d = q): p/q has the smallest denominator inside (lo, hi) iff
+   a/b <= lo and hi <= c/d.  b is the inverse of p modulo q (extended Euclid, fuel = 2 * bit length); the criterion
+   re-checks p*b - a*q = 1, so its soundness (ProofsSpec.farey_minimal_sound, all denominators) does not depend on the
+   Euclid loop being right, and a fraction that is not in lowest terms is rejected. *)
+Fixpoint inv_loop (fuel : nat) (r0 r1 s0 s1 : Z) : Z :=
   match fuel with
-  | O => true
-  | S f => let p := (ln * q / ld + 1)%Z in
-           if (p * hd <? hn * q)%Z then false else none_below ln ld hn hd (q + 1)%Z f
+  | O => s0
+  | S f => if (r1 =? 0)%Z then s0
+           else let k := (r0 / r1)%Z in inv_loop f r1 (r0 - k * r1)%Z s1 (s0 - k * s1)%Z
   end.
-Definition none_below_400 (x e : Q) : bool :=
-  let lo := Qred (x - e) in let hi := Qred (x + e) in
-  none_below (Qnum lo) (Zpos (Qden lo)) (Qnum hi) (Zpos (Qden hi)) 1%Z 400.
+Definition inv_mod (p q : Z) : Z :=
+  (inv_loop (S (2 * Z.to_nat (Z.log2 q + 1))) q (p mod q) 0 1 mod q)%Z.
+
+Definition farey_minimal (x e : Q) (p q : Z) : bool :=
+  let lo := x - e in let hi := x + e in
+  let b := inv_mod p q in
+  let a := ((p * b - 1) / q)%Z in
+  let c := (p - a)%Z in
+  let d := (q - b)%Z in
+  (p * b - a * q =? 1)%Z && (0 <? b)%Z && (0 <? d)%Z
+  && (a * Zpos (Qden lo) <=? Qnum lo * b)%Z          (* a/b <= lo *)
+  && (Qnum hi * d <=? c * Zpos (Qden hi))%Z.         (* hi <= c/d *)
 
 Definition best_in (x e : Q) (p q : Z) : bool :=
   match q with
@@ -137,9 +150,7 @@ Definition best_in (x e : Q) (p q : Z) : bool :=
          | Some r => (Zpos (Qden r) =? q)%Z      (* brute force stops at the first denominator that works *)
          | None => false
          end
-       else (* too large for brute force inside the check: no fraction with denominator <= 400 may be inside;
-               full minimality for such inputs rests on theorem C14_approx_minimal + the correspondence *)
-         none_below_400 x e)
+       else farey_minimal x e p q)
   | _ => false
   end.
 
